@@ -972,6 +972,29 @@ isXMLSpacePreserve(const XalanElement&  theElement)
 
 
 
+// Only the text nodes of source documents are stripped.  A result tree
+// fragment is constructed by the stylesheet, and is not a source document,
+// even when an extension function has made a node-set of it.
+static bool
+isInResultTreeFragment(const XalanElement&  theElement)
+{
+    const XalanNode*    theNode = &theElement;
+
+    while (theNode != 0)
+    {
+        if (theNode->getNodeType() == XalanNode::DOCUMENT_FRAGMENT_NODE)
+        {
+            return true;
+        }
+
+        theNode = theNode->getParentNode();
+    }
+
+    return false;
+}
+
+
+
 bool
 StylesheetRoot::internalShouldStripSourceNode(const XalanText&  textNode) const
 {
@@ -1005,7 +1028,8 @@ StylesheetRoot::internalShouldStripSourceNode(const XalanText&  textNode) const
                 // element names, the text node is preserved when xml:space
                 // is in effect with the value "preserve".
                 return theTester.getType() == XalanSpaceNodeTester::eStrip &&
-                       isXMLSpacePreserve(*theElement) == false;
+                       isXMLSpacePreserve(*theElement) == false &&
+                       isInResultTreeFragment(*theElement) == false;
             }
 
             ++i;
